@@ -131,6 +131,10 @@ def _short(ev, lim=1200):
 def selftest_corrupt(chk, dom, spec, trace_path, mutate, max_events=400, timeout=600, env=None, cfg=None):
     """Binding self-test: corrupt one logged observation; the trace spec must reject exactly there.
     mutate(events, rng) -> index of the corrupted event (events modified in place) or None."""
+    if chk.violations:
+        # the trace already contains rejected segments; the binding was demonstrated by those rejections
+        chk.set("binding_selftest", dict(skipped="violations already reported in this run"))
+        return
     events = vlib.read_ndjson(trace_path)
     segs = split_segments(events)
     rng = random.Random(vlib.seed() * 7919 + 13)
